@@ -6,7 +6,7 @@ import ast
 import builtins
 import symtable
 
-from .flow import Walker, World, compiler_unbound, names_in_target
+from .flow import Walker, World, GuardMap, compiler_unbound, names_in_target, _mentions
 from .model import norm
 
 PY3_NAMES = {}   # module name -> {name: bool}
@@ -389,6 +389,22 @@ def noneiter(prog, f, ctx=None):
         if isinstance(n, ast.Assign) and isinstance(n.value, ast.Call) and \
                 any(isinstance(t, (ast.Tuple, ast.List)) for t in n.targets):
             sites[id(n.value)] = 'unpacked'
+    # x = call(...); ... for p in x:  with no test of x in between
+    assigned = {}
+    for n in prog.own_nodes(f):
+        if isinstance(n, ast.Assign) and len(n.targets) == 1 and isinstance(n.targets[0], ast.Name):
+            assigned.setdefault(n.targets[0].id, []).append(n.value)
+    gm = None
+    for n in prog.own_nodes(f):
+        if isinstance(n, (ast.For, ast.comprehension)) and isinstance(n.iter, ast.Name):
+            vals = assigned.get(n.iter.id, [])
+            if len(vals) == 1 and isinstance(vals[0], ast.Call):
+                if gm is None:
+                    gm = GuardMap(f.node)
+                ch = gm.chain(n.iter) or ()
+                if any(g.kind == 'if' and _mentions(ast.unparse(g.test), n.iter.id) for g in ch):
+                    continue
+                sites[id(vals[0])] = 'assigned to %r and iterated without a None test' % n.iter.id
     if not sites:
         return out
     for call, ts, kind in prog.calls(f, ctx):
